@@ -20,8 +20,9 @@ EXTENDS Integers, TLC
 CONSTANTS CidrOverlap(_, _),     \* the two CIDRs share an address            (Nets!Intersects)
           CidrCovers(_, _)       \* the second CIDR lies inside the first      (Nets!Covers)
 
-VARIABLES pools, blocks
-pvars == <<pools, blocks>>
+VARIABLES pools, blocks,
+          unsettled     \* pools whose most recent status (condition) write was rejected by the API server
+pvars == <<pools, blocks, unsettled>>
 
 Conds == {"none", "T", "F"}
 Names == DOMAIN pools
@@ -41,7 +42,7 @@ Drop(f, n) == [x \in (DOMAIN f) \ {n} |-> f[x]]
 \* an API object with a deletion timestamp and no finalizer does not exist
 ApiInv == \A n \in Names : pools[n].deleting => pools[n].fin
 
-Init == pools = << >> /\ blocks = {}
+Init == pools = << >> /\ blocks = {} /\ unsettled = {}
 
 \* ---- environment (API-server semantics) ----------------------------------------------------------
 Create(n, c, dis, stamp) ==
@@ -49,18 +50,19 @@ Create(n, c, dis, stamp) ==
     /\ stamp >= MaxStamp(pools) /\ stamp > 0
     /\ pools' = (n :> [cidr |-> c, disabled |-> dis, deleting |-> FALSE, created |-> stamp,
                        cond |-> "none", fin |-> FALSE]) @@ pools
-    /\ UNCHANGED blocks
+    /\ UNCHANGED <<blocks, unsettled>>
 SetDisabled(n, v) ==
     /\ n \in Names /\ pools[n].disabled # v
     /\ pools' = [pools EXCEPT ![n].disabled = v]
-    /\ UNCHANGED blocks
+    /\ UNCHANGED <<blocks, unsettled>>
 \* delete: with a finalizer the object stays, marked; without, it is gone
 Delete(n) ==
     /\ n \in Names /\ ~pools[n].deleting
     /\ pools' = IF pools[n].fin THEN [pools EXCEPT ![n].deleting = TRUE] ELSE Drop(pools, n)
+    /\ unsettled' = unsettled \cap DOMAIN pools'
     /\ UNCHANGED blocks
-BlockAppears(b) == b \notin blocks /\ blocks' = blocks \cup {b} /\ UNCHANGED pools
-BlockVanishes(b) == b \in blocks /\ blocks' = blocks \ {b} /\ UNCHANGED pools
+BlockAppears(b) == b \notin blocks /\ blocks' = blocks \cup {b} /\ UNCHANGED <<pools, unsettled>>
+BlockVanishes(b) == b \in blocks /\ blocks' = blocks \ {b} /\ UNCHANGED <<pools, unsettled>>
 
 \* ---- judgement of Reconcile: pre = snapshot, blk = block snapshot, post = API state afterwards --------
 \* The controller owns only cond and fin; a pool object disappears only by finalization of a deleting pool.
@@ -77,11 +79,15 @@ Frame(pre, post) ==
 NoOverlap(post) ==
     \A m, n \in DOMAIN post : (m # n /\ Alloc(post[m]) /\ Alloc(post[n])) => ~Overlap(post[m], post[n])
 
-\* priority among rivals: confirmed-allocatable pools first, then terminating pools, then by creation
-Precedes(pre, n, m) ==
-    IF Masker(pre[m]) THEN Confirmed(pre[n])
-    ELSE \/ Confirmed(pre[n]) /\ ~Confirmed(pre[m])
-         \/ Confirmed(pre[n]) = Confirmed(pre[m]) /\ pre[n].created < pre[m].created
+\* A pool the controller has judged active: it carries Allocatable=True, or - when the status write of that
+\* judgement was rejected - no condition but already the finalizer (only pools judged allocatable get it).
+Conf(pre, uns, n) == \/ Confirmed(pre[n])
+                     \/ n \in uns /\ Eligible(pre[n]) /\ pre[n].cond = "none" /\ pre[n].fin
+\* priority among rivals: pools judged active first, then terminating pools, then by creation
+Precedes(pre, uns, n, m) ==
+    IF Masker(pre[m]) THEN Conf(pre, uns, n)
+    ELSE \/ Conf(pre, uns, n) /\ ~Conf(pre, uns, m)
+         \/ Conf(pre, uns, n) = Conf(pre, uns, m) /\ pre[n].created < pre[m].created
 
 \* what can explain a pool losing (or not getting) allocatable status: an overlapping pool that is
 \* allocatable afterwards, or an overlapping terminating pool
@@ -94,17 +100,20 @@ Blockers(pre, post, n) ==
 \* (2) a pool that was already allocatable is never displaced by a newer overlapping pool:
 \*     if it lost the status and something overlapping holds it (or masks), at least one such rival is
 \*     not newer than it.  (Losing the status with no rival at all is not the subject of the property.)
-NotDisplaced(pre, post) ==
+\*     A pool without condition whose last status write was rejected and that was never given the finalizer is
+\*     not "already allocatable": the rejected write was Allocatable=False (allocatable pools get the finalizer).
+Established(pre, uns, n) == Alloc(pre[n]) /\ ~(n \in uns /\ pre[n].cond = "none" /\ ~pre[n].fin)
+NotDisplaced(pre, post, uns) ==
     \A n \in DOMAIN post :
-        (Alloc(pre[n]) /\ ~Alloc(post[n]) /\ Blockers(pre, post, n) # {})
-            => \E m \in Blockers(pre, post, n) : ~Precedes(pre, n, m)
+        (Established(pre, uns, n) /\ ~Alloc(post[n]) /\ Blockers(pre, post, n) # {})
+            => \E m \in Blockers(pre, post, n) : ~Precedes(pre, uns, n, m)
 
 \* (3) a terminating pool keeps masking overlapping pools until it is gone (from the snapshot);
-\*     a pool that was confirmed allocatable while the terminating pool did not mask it is left to (2)
-Masking(pre, post) ==
+\*     a pool that was judged active while the terminating pool did not mask it is left to (2)
+Masking(pre, post, uns) ==
     \A t \in DOMAIN pre : Masker(pre[t]) =>
         \A q \in (DOMAIN post) \ {t} :
-            (Overlap(pre[t], pre[q]) /\ ~Confirmed(pre[q])) => ~Alloc(post[q])
+            (Overlap(pre[t], pre[q]) /\ ~Conf(pre, uns, q)) => ~Alloc(post[q])
 
 \* (4) the finalizer of a terminating pool, or of a pool that is allocatable afterwards, is not removed
 \*     while address blocks exist inside it ...
@@ -120,10 +129,26 @@ AllocHasFin(post) == \A n \in DOMAIN post : Alloc(post[n]) => post[n].fin
 ReconcileOK(pre, blk, post) ==
     /\ Frame(pre, post)
     /\ NoOverlap(post)
-    /\ NotDisplaced(pre, post)
-    /\ Masking(pre, post)
+    /\ NotDisplaced(pre, post, unsettled)
+    /\ Masking(pre, post, unsettled)
     /\ FinKept(pre, blk, post)
     /\ AllocHasFin(post)
 
-Reconcile(post) == ReconcileOK(pools, blocks, post) /\ pools' = post /\ UNCHANGED blocks
+\* ---- Reconcile with failing status writes ----------------------------------------------------------------
+\* `failed` = the pools whose condition (status) write was rejected by the API server during this pass.  A failed
+\* write leaves the stored condition as it was.  The pass is accepted iff it would have been accepted had those
+\* writes landed with SOME condition: every clause is judged on the state in which the failed pools carry the
+\* condition the controller tried to give them (existentially quantified - the property layer does not know it).
+\* Everything that did reach the API server (the other pools' conditions, all finalizers) is judged as is; so a
+\* pool that is made allocatable although an overlapping terminating pool's own status write failed is rejected.
+Override(post, c) == [n \in DOMAIN post |-> IF n \in DOMAIN c THEN [post[n] EXCEPT !.cond = c[n]] ELSE post[n]]
+ReconcileFailOK(pre, blk, post, failed) ==
+    /\ failed \subseteq DOMAIN pre
+    /\ \A n \in failed \cap DOMAIN post : post[n].cond = pre[n].cond
+    /\ \E c \in [failed \cap DOMAIN post -> Conds] : ReconcileOK(pre, blk, Override(post, c))
+
+Reconcile(post) == ReconcileOK(pools, blocks, post) /\ pools' = post /\ unsettled' = {} /\ UNCHANGED blocks
+ReconcileF(post, failed) ==
+    /\ ReconcileFailOK(pools, blocks, post, failed)
+    /\ pools' = post /\ unsettled' = failed \cap DOMAIN post /\ UNCHANGED blocks
 =============================================================================
